@@ -3,7 +3,7 @@
 import cfg
 import common
 import unpackmodel
-from unpackmodel import recv_is_field, disclosure_array_of, find_elem
+from unpackmodel import recv_is_field, disclosure_array_of, find_elem, elem_refs, resolve_idx
 from common import guarded, success_edges, bool_switches, length_sets, fmt_lenset, string_compare_switches, neq_const_edges
 from vmodel import is_field
 from val import vals, peel, const_value, must, may, walk, vstr
@@ -70,14 +70,21 @@ def e2_e3(ctx, fx, U):
     for (fn, b, n, lk) in U.obj_sinks:
         line = fn.term(b).get("line")
         out, name, value = n.kids
-        # the decoded array: the thing indexed at 1 for the name and at 2 for the value
-        d1 = find_elem(name, 1)
-        d2 = find_elem(value, 2)
-        if not d1 or not d2 or not all(x is d1[0] for x in d1 + d2):
-            ctx.finding("C08.E2", fn, "member-shape", "cannot identify name = disclosure[1], value = disclosure[2] of one decoded array at the member sink (name: %s; value: %s)" % (vstr(name, 4), vstr(value, 4)), line=line)
+        # the decoded array D: name must be D[1], value must be D[2] (directly, as the last element, or through a helper)
+        nrefs = elem_refs(fx, fn, name)
+        vrefs = elem_refs(fx, fn, value)
+        Ds = [d for (d, _) in nrefs + vrefs]
+        if not nrefs or not vrefs or not all(d is Ds[0] for d in Ds):
+            ctx.finding("C08.E2", fn, "member-shape", "cannot identify name and value as elements of one decoded disclosure array at the member sink (name: %s; value: %s)" % (vstr(name, 4), vstr(value, 4)), line=line)
             continue
-        D = d1[0]
+        D = Ds[0]
         ls = length_sets(fn, D).get(b)
+        nidx = set().union(*[resolve_idx(i, ls) or {None} for (_, i) in nrefs])
+        vidx = set().union(*[resolve_idx(i, ls) or {None} for (_, i) in vrefs])
+        if nidx != {1} or vidx != {2}:
+            ctx.finding("C08.E2", fn, "member-shape", "the member name/value are taken from elements %s / %s of the disclosure (must be 1 / 2)" % (sorted(map(str, nidx)), sorted(map(str, vidx))), line=line)
+        else:
+            ctx.ok("C08.E2", fn, "member-shape", "name = disclosure[1], value = disclosure[2]", line=line)
         if ls is not None and set(ls) == {3}:
             ctx.ok("C08.E2", fn, "member-arity", "A7: at the insert the decoded disclosure has length set {3}", line=line)
         else:
@@ -118,13 +125,17 @@ def e2_e3(ctx, fx, U):
         chk(ctx, "C08.E3", fn, line, "name-not-present", okc, "insert dominated by contains_key(out, name)==false with no intervening mutation of the map", "a disclosed member may overwrite an existing member of the same name (no DuplicateKey check on every path)")
     for (fn, e, inner, lk) in U.elem_sinks:
         line = e["line"]
-        d1 = find_elem(inner, 1)
-        if not d1 or not all(x is d1[0] for x in d1):
-            # value may be element 0/2 etc.
-            ctx.finding("C08.E2", fn, "element-shape", "cannot identify value = disclosure[1] at the array-element sink: %s" % vstr(inner, 4), line=line)
+        vrefs = elem_refs(fx, fn, inner)
+        if not vrefs or not all(d is vrefs[0][0] for (d, _) in vrefs):
+            ctx.finding("C08.E2", fn, "element-shape", "cannot identify the value as an element of one decoded disclosure array at the array-element sink: %s" % vstr(inner, 4), line=line)
             continue
-        D = d1[0]
+        D = vrefs[0][0]
         ls = length_sets(fn, D).get(e["bb"])
+        vidx = set().union(*[resolve_idx(i, ls) or {None} for (_, i) in vrefs])
+        if vidx != {1}:
+            ctx.finding("C08.E2", fn, "element-shape", "the array element is taken from element(s) %s of the disclosure (must be 1)" % sorted(map(str, vidx)), line=line)
+        else:
+            ctx.ok("C08.E2", fn, "element-shape", "value = disclosure[1]", line=line)
         if ls is not None and set(ls) == {2}:
             ctx.ok("C08.E2", fn, "element-arity", "A7: at Ok(Some(..)) the decoded disclosure has length set {2}", line=line)
         else:
